@@ -238,6 +238,13 @@ def build(P):
             "DECLARE a : ARRAY[1:3] OF STRING\na[1] <- \"a string long enough to live on the heap, not inline\"\na[2] <- \"another string long enough to live on the heap\"\na[3] <- \"x\"\na <- a\nOUTPUT a[1]\nOUTPUT a[2]\nOUTPUT a[3]",
             "TYPE R\nDECLARE s : STRING\nDECLARE a : ARRAY[1:2] OF STRING\nENDTYPE\nDECLARE r : R\nr.s <- \"a string long enough to live on the heap, not inline\"\nr.a[1] <- \"another string long enough to live on the heap\"\nr <- r\nOUTPUT r.s, r.a[1]\nr.a <- r.a\nOUTPUT r.a[1]\nDECLARE t : ARRAY[1:2] OF R\nt[1] <- r\nt[1] <- t[1]\nOUTPUT t[1].s, t[1].a[1]\nt <- t\nOUTPUT t[1].s, t[1].a[1]\nPROCEDURE P(BYREF x : R, BYREF y : R)\nx <- y\nOUTPUT x.s, x.a[1]\nENDPROCEDURE\nCALL P(r, r)\nCALL P(t[1], t[1])",
             "DECLARE a : ARRAY[1:3] OF INTEGER\nDECLARE a : ARRAY[1:3] OF INTEGER", "DECLARE a : ARRAY[1:3] OF DATE\nOUTPUT a[1]",
+            # whole-array assignment between array MEMBERS of the same name in two records / two elements of an array of records; members with different bounds or types
+            "TYPE Box\nDECLARE cells : ARRAY[1:3] OF INTEGER\nENDTYPE\nDECLARE a, b : Box\na.cells[1] <- 1\na.cells[2] <- 2\na.cells[3] <- 3\nb.cells <- a.cells\nOUTPUT b.cells[1], b.cells[2], b.cells[3]\na.cells[2] <- 20\nb.cells[3] <- 30\nOUTPUT a.cells[2], a.cells[3], b.cells[2], b.cells[3]",
+            "TYPE Box\nDECLARE cells : ARRAY[1:2] OF STRING\nENDTYPE\nDECLARE grid : ARRAY[1:2] OF Box\ngrid[1].cells[1] <- \"x\"\ngrid[1].cells[2] <- \"y\"\ngrid[2].cells <- grid[1].cells\nOUTPUT grid[2].cells[1], grid[2].cells[2]\ngrid[1].cells[1] <- \"z\"\nOUTPUT grid[2].cells[1], grid[1].cells[1]",
+            "TYPE Box\nDECLARE cells : ARRAY[1:3] OF INTEGER\nENDTYPE\nTYPE Bag\nDECLARE cells : ARRAY[1:4] OF INTEGER\nENDTYPE\nDECLARE a : Box\nDECLARE b : Bag\nb.cells <- a.cells\nOUTPUT \"not reached\"",
+            "TYPE Box\nDECLARE cells : ARRAY[1:3] OF INTEGER\nENDTYPE\nTYPE Bag\nDECLARE cells : ARRAY[1:3] OF REAL\nENDTYPE\nDECLARE a : Box\nDECLARE b : Bag\nb.cells <- a.cells\nOUTPUT \"not reached\"",
+            "TYPE Box\nDECLARE cells : ARRAY[1:3] OF INTEGER\nENDTYPE\nDECLARE a : Box\nDECLARE cells : ARRAY[1:3] OF INTEGER\ncells[2] <- 7\na.cells <- cells\nOUTPUT a.cells[2]\ncells[2] <- 8\na.cells[2] <- 9\ncells <- a.cells\nOUTPUT cells[2], a.cells[2]",
+            "TYPE Box\nDECLARE cells : ARRAY[1:2] OF INTEGER\nENDTYPE\nDECLARE a : Box\na.cells[1] <- 4\na.cells <- a.cells\nOUTPUT a.cells[1]",
         ]
         # arrays of records whose fields are (mostly) arrays: every field of every element survives element copies, whole-array copies and BYVAL passing
         for nsc, nar in [(0, 1), (0, 2), (0, 3), (1, 2), (1, 3), (2, 3), (2, 1), (3, 4)]:
@@ -379,7 +386,7 @@ def build(P):
                     return ["%s.tag <- %d" % (v, base)] + ["%s.%s[%s] <- %s" % (v, fld, c, VAL[et](base + k + (50 if fld == "h" else 0))) for fld in ("g", "h") for k, c in enumerate(cells)]
                 def dumpg(v, tag):
                     return ["OUTPUT \"%s \", %s.tag, \" \", %s" % (tag, v, ", \" \", ".join("%s.%s[%s]" % (v, fld, c) for fld in ("g", "h") for c in cells))]
-                for chan in ["assign", "byval", "return", "array", "field", "newvar", "arrfield"]:
+                for chan in ["assign", "byval", "return", "array", "field", "newvar", "arrfield", "arrfield-same", "arrfield-elems"]:
                     L = tl + ["DECLARE a, b : Grid"] + fillg("a", 100)
                     if chan == "assign": L += ["b <- a"]
                     elif chan == "byval": L += ["PROCEDURE P(x : Grid)"] + dumpg("x", "in") + fillg("x", 300) + ["ENDPROCEDURE", "CALL P(a)", "b <- a"]
@@ -388,6 +395,8 @@ def build(P):
                     elif chan == "field": L += ["TYPE Wrap", "DECLARE inner : Grid", "ENDTYPE", "DECLARE w, w2 : Wrap", "w.inner <- a", "w2 <- w", "b <- w2.inner"]
                     elif chan == "newvar": L += ["c <- a"] + fillg("a", 400) + dumpg("c", "c") + ["b <- c"]
                     elif chan == "arrfield": L += ["b.g <- a.h", "b.h <- a.g", "b.tag <- a.tag"]
+                    elif chan == "arrfield-same": L += ["b.g <- a.g", "b.h <- a.h", "b.tag <- a.tag"]       # the SAME member name in two different records
+                    elif chan == "arrfield-elems": L += ["DECLARE shelf : ARRAY[1:2] OF Grid", "shelf[1] <- a", "shelf[2].g <- shelf[1].g", "shelf[2].h <- shelf[1].h", "shelf[2].tag <- shelf[1].tag", "b <- shelf[2]"]
                     L += dumpg("b", "copied") + fillg("a", 500) + dumpg("b", "after-src-change") + fillg("b", 600) + dumpg("a", "after-dst-change")
                     progs.append(Case(id="C07-grid-%d-%s-%s" % (nd, et, chan), prog=("\n".join(L) + "\n").encode(), meta=dict(units=["grid/%d/%s/%s" % (nd, et, chan)], features=["rec_copy"])))
         for ch in chunks(progs, 400):
